@@ -350,6 +350,11 @@ def corpus(defaults) -> List[List[Dict[str, Any]]]:
         [h("atlas", "plain", [["collection", "atlas", "Jets"]]), h("atlas", "plain", who=0)],  # h_coll: a declared collection overriding a built-in, reused executor
         [h("cms_miniaod", "plain", [["collection", "cms_miniaod", "Muons"]]), h("cms_miniaod", "plain", who=0)],
         [h("atlas", "plain", [["collection", "atlas", "MyColl"]]), h("atlas", "use_mycoll", who=0)],  # a new collection name, reused executor
+        # a job-script block sent twice in one query, its dependency on only one of the copies, next to blocks that omit the
+        # optional depends_on key: what that query merged must not reach a later query's blocks (same or new executor)
+        [h("atlas", "plain", [["job", "a", ["a=1"], []], ["job", "b", ["b=1"], []], ["job", "a", ["a=1"], ["b"]]]), h("atlas", "plain", [["job", "c", ["c=1"], []]])],
+        [h("atlas", "plain", [["job", "a", ["a=1"], ["b"]], ["job", "b", ["b=1"], []], ["job", "a", ["a=1"], []]]), h("atlas", "plain", [["job", "c", ["c=1"], []]], who=0)],
+        [h("atlas", "plain", [["job", "a", ["a=1"], []], ["job", "b", ["b=1"], []], ["job", "a", ["a=1"], ["b"]]]), h("atlas", "plain", [["job", "b", ["b=1"], []], ["job", "c", ["c=1"], []]], who=0)],
         # the same metadata twice in a row on one executor: the second query's own declarations must be processed again
         [h("atlas", "plain", [["method", "xAOD::Jet", "bar", "int"]]), h("atlas", "declared", [["method", "xAOD::Jet", "bar", "int"]], who=0)],
         [h("cms_aod", "plain", [["method", COLL["cms_aod"][1], "bar", "int"]]), h("cms_aod", "declared", [["method", COLL["cms_aod"][1], "bar", "int"]], who=0)],
